@@ -405,6 +405,7 @@ def call_numpy(it, name, mod, fn, args, kwargs, node, fr):
         v.alloc = fn
         v.fresh = True
         v.alloc_shape = shape
+        v.alloc_dtype = narrow
         if dims is not None and len(dims) >= 1:
             so = getattr(dims[0], "shape_of", None)
             if so is not None and getattr(dims[0], "axis", 0) == 0:
@@ -516,6 +517,16 @@ def call_numpy(it, name, mod, fn, args, kwargs, node, fr):
     return opaque(it, name, args, kwargs, space=_space(*args))
 
 
+def holds_positions(v):
+    """is v an array of row / element positions (np.where(...)[0], argsort, a selection of such)?"""
+    if getattr(v, "pos_of", None) is not None or getattr(v, "scalar_pos", False):
+        return True
+    t = getattr(v, "term", None)
+    while t is not None and getattr(t, "op", None) == "call" and t.args and t.args[0] in ("sel", "elem", "unique", "sorted"):
+        t = t.args[1] if len(t.args) > 1 else None
+    return t is not None and getattr(t, "op", None) == "call" and len(t.args) == 2 and t.args[0] in ("where", "argwhere", "nonzero", "flatnonzero", "argsort")
+
+
 def reduce_(it, fn, v, axis, kwargs, node):
     extra_ = {k: x for k, x in kwargs.items() if k in ("initial", "where")}
     if extra_:
@@ -580,6 +591,8 @@ def reduce_(it, fn, v, axis, kwargs, node):
         return Arr([call(f"reduce0:{fnn}", c) for c in a.cols], 1)
     r = Unk(call(f"reduce:{fnn}", to_term(v), const(ax)))
     r.reduced = (fnn, v, ax)
+    if fnn in ("any", "all") and holds_positions(v):
+        r.any_of_positions = True  # any() / all() of an array of positions asks whether a position is non-zero, not whether there are any
     return r
 
 
@@ -1244,6 +1257,23 @@ def frame_method(it, f, name, args, kwargs, node, fr):
     if name == "astype":
         c = f.clone()
         c.notes.append(("astype", to_term(args[0]) if args else const(None)))
+        d_ = args[0] if args else kwargs.get("dtype")
+        per_col = None
+        if isinstance(d_, DictV) and all(is_pyconst(k) or isinstance(k, (str, int)) for k in d_.items):
+            per_col = {(pyval(k) if is_pyconst(k) else k): v for k, v in d_.items.items()}
+        elif d_ is not None and _dtype_kind(d_) in ("int", "narrow", "cast"):
+            per_col = {k: d_ for k in f.cols}
+        if per_col:
+            for k, dk in per_col.items():
+                if k not in c.cols:
+                    continue
+                kind = _dtype_kind(dk)
+                if kind == "int":
+                    c.cols[k] = mk("int", c.cols[k])  # truncation toward zero
+                elif kind in ("narrow", "cast"):
+                    c.cols[k] = call("cast", c.cols[k], to_term(dk))  # a narrower / unknown type: not the identity
+                elif kind == "str":
+                    c.cols[k] = T("str", c.cols[k])
         if args and (isinstance(args[0], Ref) and args[0].name == "builtins.str" or is_pyconst(args[0]) and pyval(args[0]) in ("str", "string")):
             c.cols = {k: T("str", v) for k, v in f.cols.items()}  # every cell becomes its text
             if getattr(f, "kinds", None) is not None:
@@ -1544,6 +1574,8 @@ def val_method(it, v, name, args, kwargs, node, fr):
     if name in ("max", "min", "sum", "mean", "std", "median", "nunique", "count", "any", "all", "argmax", "argmin", "idxmax", "idxmin"):
         r = Unk(call(f"reduce:{name}", v.term, const(None)))
         r.reduced = (name, v, None)
+        if name in ("any", "all") and holds_positions(v):
+            r.any_of_positions = True
         return r
     if name in ("map", "apply"):
         func = args[0]
@@ -1586,6 +1618,29 @@ def val_method(it, v, name, args, kwargs, node, fr):
         return K(None)
     r = Unk(call("." + name, v.term, *[to_term(a) for a in args]), space=None)
     return r
+
+
+_INT_T = ("builtins.int", "numpy.int32", "numpy.int64", "numpy.int_", "numpy.intp", "numpy.uint32", "numpy.uint64")
+_NARROW_T = ("numpy.int8", "numpy.int16", "numpy.uint8", "numpy.uint16", "numpy.float16", "builtins.bool", "numpy.bool_")
+_FLOAT_T = ("builtins.float", "numpy.float64", "numpy.float32", "numpy.double", "numpy.single", "numpy.float_")
+
+
+def _dtype_kind(d):
+    """'float' (keeps every value of the abstract real domain), 'int' (truncates), 'narrow' (a small range / precision), 'str', 'cast' (not known)"""
+    n = d.name if isinstance(d, Ref) else (pyval(d) if is_pyconst(d) else None)
+    if n is None:
+        return "cast"
+    n = str(n)
+    short = n.rsplit(".", 1)[-1]
+    if n in _FLOAT_T or short in ("float", "float64", "float32", "double", "f8", "f4"):
+        return "float"
+    if n in _INT_T or short in ("int", "int32", "int64", "i4", "i8", "Int64"):
+        return "int"
+    if n in _NARROW_T or short in ("int8", "int16", "uint8", "uint16", "float16", "bool"):
+        return "narrow"
+    if short in ("str", "string", "object", "O", "category"):
+        return "str" if short in ("str", "string") else "float"
+    return "cast"
 
 
 def _runtime_dtype(d):
